@@ -14,7 +14,7 @@ EXPLANATION = (
     "the 7 dispatch cases), Aggregated.activation_degree lookup"
 )
 ASSUMPTIONS = ["decides how the stages are connected on every path; the numeric values of the stages are not decided"]
-FLOORS = {"P1": 3, "P2": 3, "G": 1, "O-dea": 1, "O-seq": 1, "P3": 3, "P4": 3, "P5": 5, "P6": 2, "P7": 3, "P8": 3, "P9": 7, "P10": 2}
+FLOORS = {"P1": 3, "P2": 21, "G": 1, "O-dea": 1, "O-seq": 1, "P3": 3, "P4": 3, "P5": 5, "P6": 2, "P7": 3, "P8": 3, "P9": 7, "P10": 2}
 
 
 def run(check: Check) -> None:
@@ -22,6 +22,8 @@ def run(check: Check) -> None:
     a = c08.Activate(check, "General")
     c08.common_rules(a)
     c08.general(a)
+    for cls in c08.ACTIVATIONS[1:]:  # the selective methods hand the same three operators of the block to the rules they fire
+        c08.operator_wiring(c08.Activate(check, cls))
     wiring.p3_weight(check)
     wiring.p4_trigger(check)
     wiring.modify_rules(check, p5=True, l1=False, h1=False)
